@@ -32,6 +32,7 @@ type pagedOnly struct {
 	failAt   int // -1: never
 	injected bool
 	appends  int
+	chunk    int // > 0: a page never holds more than chunk events (a store may return fewer than the limit)
 }
 
 func (p *pagedOnly) Append(ctx context.Context, e *Event) (Offset, error) {
@@ -45,6 +46,9 @@ func (p *pagedOnly) Read(ctx context.Context, from Offset, limit int) ([]*Stored
 	if i == p.failAt {
 		p.injected = true
 		return nil, from, errInjected
+	}
+	if p.chunk > 0 && (limit <= 0 || limit > p.chunk) {
+		limit = p.chunk
 	}
 	return p.inner.Read(ctx, from, limit)
 }
